@@ -958,3 +958,32 @@ func bigListProgram(t *rapid.T) (*m.Node, *Universe) {
 	}
 	return tree, u
 }
+
+// unicodeLetters: letters whose code point ends in the byte of an ASCII character the lexer or the
+// formatter treats specially - ( ) [ ] ; , " space tab LF ! = - so that code which looks at one byte
+// of a rune mistakes them; plus ordinary non-ASCII letters.
+var unicodeLetters = []rune{0x0128, 0x0129, 0x015B, 0x015D, 0x013B, 0x012C, 0x0122, 0x0120, 0x0109, 0x010A, 0x0121, 0x013D, 0x4E5D, 0x4E28, 0x4E29, 0x4E3B, 0x4E22, 'é', 'ß', 'π', '变', 'я'}
+
+// unicodeNames renames some registered variables to identifiers containing such letters.
+func unicodeNames(t *rapid.T, tree *m.Node, u *Universe) {
+	if u.allowUndefined() || len(u.Vars) == 0 || rapid.IntRange(0, 3).Draw(t, "uninames") != 0 {
+		return
+	}
+	ren := map[string]string{}
+	for i := range u.Vars {
+		if rapid.Bool().Draw(t, "uniname_skip") {
+			continue
+		}
+		r := rapid.SampledFrom(unicodeLetters).Draw(t, "uniname_letter")
+		name := []string{"go" + string(r) + "c", string(r) + "x", "x" + string(r), string(r), "a" + string(r) + string(r) + "b"}[rapid.IntRange(0, 4).Draw(t, "uniname_form")] + fmt.Sprint(i)
+		ren[u.Vars[i].Name] = name
+		u.Vars[i].Name = name
+	}
+	tree.Walk(func(x *m.Node) {
+		if x.Kind == m.KVar {
+			if n, ok := ren[x.Name]; ok {
+				x.Name = n
+			}
+		}
+	})
+}
